@@ -96,9 +96,26 @@ def measure(c, stats):
             stats.bump("hits", int(last[0])); stats.bump("accesses", int(last[1]))
 
 
+def _configured_geometry_oracle(c):
+    """counters of a simulation built from options vs reference caches of the CONFIGURED geometry fed the same addresses"""
+    import simspy
+    r = simspy.run(c)
+    if r is None or r["fault"]:
+        return []
+    if "d_real" in r and r["d_real"] != r["d_ref"]:
+        return [Failure("oracle", PROP, f"data cache (hits, accesses) {r['d_real']}; a reference cache of the configured geometry fed the same addresses gives {r['d_ref']} ({r['mode']})", "sim:dcache-counters-vs-configured")]
+    if r["cycles"] != r["cycles_ref"]:
+        return [Failure("oracle", PROP, f"{r['cycles']} cycles for {r['steps']} steps; steps + penalty x reference misses = {r['cycles_ref']} ({r['mode']})", "sim:penalty-vs-configured")]
+    return []
+
+
 def oracle(c):
     if c.suite == "sim-load-dcache":
-        return _load_oracle(c)
+        return _load_oracle(c) or _configured_geometry_oracle(c)
+    if c.lines and c.lines[0].startswith("sim.new"):
+        f = _configured_geometry_oracle(c)
+        if f:
+            return f
     fails = []
     if c.lines and c.lines[0].startswith("dc.new"):
         h = dcgen.parse_header(c.lines[0])
